@@ -422,7 +422,7 @@ func (w *world) step(code, a, b, d int64) int64 {
 }
 
 func run(sel int, in []int64) []int64 {
-	if sel < 1 || sel > 5 {
+	if sel < 1 || sel > 6 {
 		panic("unknown selector")
 	}
 	r := &rd{t: in}
@@ -482,13 +482,15 @@ func laws(sel int, in, got []int64, law func(lsel int, lin []int64, sig string))
 		law(112, lin, "")       // every failure that is NOT a Sync computed from a stale lister object
 		law(122, lin, sigRaceA) // a Sync computed from a stale lister object overwrote the server's state
 	}
-	if sel == 4 { // quiescent end states: the full-strength laws about caught-up states
+	if sel == 4 || sel == 6 { // quiescent end states: the full-strength laws about caught-up states
 		law(141, lin, "") // a stuck marked child that is NOT of the known class
 		law(142, lin, "") // an open child under a closed parent that is NOT of the known class
 		law(143, lin, sigStuckChild)
 		law(144, lin, sigOpenChild)
 		law(145, lin, "") // end state: no queue left Closing without a PodGroup
-		law(146, lin, "") // end state: the catch-up rounds really drained everything (145's guard is not vacuous)
+		if sel == 4 {     // not for selector 6: retry budget 15, the catch-up is too short to exhaust it
+			law(146, lin, "") // end state: the catch-up really drained everything (145's guard is not vacuous)
+		}
 	}
 	if sel == 3 { // PodGroup events before the queue is listed: laws against the PodGroups that really exist
 		law(131, lin, "")
@@ -757,7 +759,10 @@ func genPGFirst(r *vh.Rng, i int) (in []int64, desc map[string]any) {
 // with catch-up rounds (every queue delivered, work queue drained).  Laws 141 / 142 look at
 // the caught-up states: no child left closed with closed-by-parent=true under an Open
 // parent; no child open under a closed / closing parent.
-func genQuiescent(r *vh.Rng, i int) (in []int64, desc map[string]any) {
+func genQuiescent(r *vh.Rng, i int) (in []int64, desc map[string]any, sel int) {
+	sel = 4
+	catchProcs := 36 // processing steps of the catch-up, each preceded by the delivery of every queue
+	ncmd := 0
 	type q struct{ id, parent, state, ann int64 }
 	var evs []int64
 	ne := 0
@@ -965,6 +970,7 @@ func genQuiescent(r *vh.Rng, i int) (in []int64, desc map[string]any) {
 			}
 			x := qs[r.Range(1, len(qs)-1)].id
 			C(x, int64(r.Range(1, 2)))
+			ncmd++
 			sync()
 			for m := r.Range(0, 3); m > 0; m-- {
 				var only []int64 // queues without siblings: a fault on them is order-independent
@@ -987,6 +993,16 @@ func genQuiescent(r *vh.Rng, i int) (in []int64, desc map[string]any) {
 				sync()
 			}
 		}
+		// Law 146 ("the end state is caught up") needs the catch-up to be long enough to exhaust the retry
+		// budget of EVERY request that can never succeed (e.g. several Open commands on a child of a closed
+		// parent, each retried maxRequeueNum times, sharing the processing steps): with budget 3 the catch-up
+		// gets (budget+2) x (an upper bound of the pending requests) steps; with budget 15 that would be
+		// too long, so those histories go to selector 6 = selector 4 without law 146.
+		if maxrq == 3 {
+			catchProcs = 5 * (2*ncmd + len(qs) + 4)
+		} else {
+			sel = 6
+		}
 		for _, x := range pend14 { // every split deletion is completed before the catch-up
 			add(14, x[0], x[1], 0)
 		}
@@ -994,13 +1010,11 @@ func genQuiescent(r *vh.Rng, i int) (in []int64, desc map[string]any) {
 			add(13, x[0], 0, 0)
 		}
 	}
-	for round := 0; round < 6; round++ { // catch up: every queue delivered after every processed request
-		for d := 0; d < 6; d++ {
-			for _, x := range qs {
-				L(x.id)
-			}
-			P(0)
+	for d := 0; d < catchProcs; d++ { // catch up: every queue delivered after every processed request
+		for _, x := range qs {
+			L(x.id)
 		}
+		P(0)
 	}
 	for _, x := range qs {
 		L(x.id)
@@ -1018,13 +1032,13 @@ func genQuiescent(r *vh.Rng, i int) (in []int64, desc map[string]any) {
 	in = append(in, ix...)
 	in = append(in, 0, int64(ne))
 	in = append(in, evs...)
-	return in, map[string]any{"shape": shape, "queues": len(qs), "events": ne}
+	return in, map[string]any{"shape": shape, "queues": len(qs), "events": ne}, sel
 }
 
 func gen(rng *vh.Rng, n int, emit func(id string, sel int, in []int64, kind string, nontrivial bool, desc any)) {
 	for i := 0; i < n/5+12; i++ {
-		in, desc := genQuiescent(rng.Fork(), i)
-		emit(fmt.Sprintf("quiescent-%d", i), 4, in, "quiescent-end-state", true, desc)
+		in, desc, qsel := genQuiescent(rng.Fork(), i)
+		emit(fmt.Sprintf("quiescent-%d", i), qsel, in, "quiescent-end-state", true, desc)
 	}
 	for i := 0; i < n/6+8; i++ {
 		in, desc := genPGFirst(rng.Fork(), i)
